@@ -489,6 +489,9 @@ func (e *Env) c19Combinator(name string, run *ssa.Function) {
 			continue
 		}
 		as := csy.InCtx(n.Ctx, n.Call.Args[1]).String()
+		if headIndexRe.MatchString(as) && !strings.Contains(as, core.FuncName(comb)+"(") {
+			continue // the repeated head element, appended as a slice (its repetition factor is judged above)
+		}
 		nT++
 		obT.Check(strings.Contains(as, core.FuncName(comb)+"("), gc.Where(n), "appends rows of "+trunc(as, 80), "a whole row of "+trunc(as, 120)+" is appended per head element: that is a raw input stream, not the combined tail - with three or more ports the tail out-ports get fewer items than the head port and the tuples are misaligned")
 	}
@@ -507,6 +510,31 @@ func (e *Env) c19Selector(run *ssa.Function) {
 	}
 	p := e.P
 	sy := e.symbolizer()
+	// every tuple is examined: the loops of Run around the sends (the loop over the tuples that arrive, the loops over
+	// a tuple's members) cannot be left early - a `break` where a `continue` was meant stops after the first tuple
+	if gr := e.XG(run); gr != nil {
+		obT := r.Ob("R3", "IPSelectorSync:every-tuple-examined", "Run's loop over the arriving tuples goes on until the tuple stream is closed (it is not left after a rejected - or any - tuple)")
+		nS, okAll := 0, true
+		for _, n := range gr.Nodes {
+			if _, isSend := isPortSend(n); !isSend || n.Kind == core.KAfter {
+				continue
+			}
+			nS++
+			if len(gr.EnclLoops(n)) < 2 {
+				okAll = false
+				obT.Fail(gr.Where(n), "the forwarding of a tuple's members is not inside a loop over the arriving tuples (the tuple loop never repeats): only the first tuple is handled")
+			}
+			for _, la := range gr.EnclLoops(n) {
+				if !e.loopHarmlessExits(gr, la) {
+					okAll = false
+					obT.Fail(gr.Where(n), "a loop around the forwarding of a tuple can be left early: after the first tuple (or the first rejected one) the component stops forwarding, later tuples are lost")
+				}
+			}
+		}
+		if nS > 0 && okAll {
+			obT.OK(core.FuncName(run), "the loops around the sends run to the end of their streams")
+		}
+	}
 	// the function(s) receiving on the in-port channels, anywhere in Run's call graph (goroutines included)
 	n0 := 0
 	tree := e.treeFuncs(run)
@@ -672,6 +700,73 @@ func (e *Env) c19Splitter(run *ssa.Function) {
 	}
 	if n0 == 0 {
 		ob2.Fail(core.FuncName(run), "no write of the scanned lines")
+	}
+	// every part that is closed is then sent: from a Close of a part file a Send is inevitable before the next part is
+	// created and before Run returns (a part that is written and finalised but never sent is lost to the consumers)
+	obS := r.Ob("R4", "FileSplitter:every-part-sent", "every part file that is closed is sent before the next part is created and before Run returns")
+	isCreatePart := func(m *core.Node) bool { return m.Kind != core.KAfter && m.IsCallTo("os.Create") }
+	nCl := 0
+	for _, cn := range g.Select(isClose) {
+		// only closes of part files (handles that come from os.Create), not of the input file
+		rs := e.xsym().InCtx(cn.Ctx, cn.Call.Args[0]).String()
+		if strings.Contains(rs, "os.Open(") && !strings.Contains(rs, "os.Create(") {
+			continue // the input file
+		}
+		nCl++
+		res := g.Run(core.Scenario{Start: cn, AtEntry: true})
+		if res.ReachesAvoiding(func(m *core.Node) bool { return m.Kind == core.KRootRet || isCreatePart(m) }, isSendN) != nil {
+			obS.Fail(g.Where(cn), "after this part was closed the next part can be created, or Run can return, without the part having been sent")
+		} else {
+			obS.OK(g.Where(cn), "Close ⇒ Send before the next os.Create / return")
+		}
+	}
+	if nCl == 0 {
+		obS.OK(core.FuncName(run), "no explicit Close of a part file to start from (close≺finalize≺send is judged for every send)")
+	}
+	// an input whose parts do not exist yet is split: from the receive of an input IP, with every existence test saying
+	// "absent", a part is sent before the next input is taken or Run returns (the skip test's polarity)
+	obN := r.Ob("R4", "FileSplitter:absent⇒split", "an input whose first part does not exist yet is split (at least one part is sent before the next input is received)")
+	nRecv := 0
+	for _, rn := range g.Nodes {
+		u, ok := rn.Instr.(*ssa.UnOp)
+		if !ok || u.Op != token.ARROW || !u.CommaOk || rn.Kind == core.KAfter || rn.Ctx != g.Root {
+			continue
+		}
+		nRecv++
+		res := g.Run(core.Scenario{Start: rn, Result: core.TupleAV(core.Top, core.BoolAV(true)), CallResult: func(m *core.Node) (core.AV, bool) {
+			if isStat(m) {
+				return core.TupleAV(core.Top, core.NonNilAV(core.ErrNotExist)), true
+			}
+			return core.Top, false
+		}})
+		if res.ReachesAvoiding(func(m *core.Node) bool { return m.Kind == core.KRootRet || m == rn }, isSendN) != nil {
+			obN.Fail(g.Where(rn), "with no part existing yet, the next input can be received (or Run can return) without any part of this input having been sent: the existence test that lets finished inputs be skipped has the wrong polarity")
+		} else {
+			obN.OK(g.Where(rn), "received input, parts absent ⇒ a part is sent")
+		}
+	}
+	if nRecv == 0 {
+		obN.Unknown(core.FuncName(run), "no receive of input IPs in Run")
+	}
+	// scanner polarity: a scanned line is written; nothing is written once the scanner is exhausted
+	for _, n := range g.Nodes {
+		if !n.IsCallTo("(*bufio.Scanner).Scan") || n.Kind == core.KAfter {
+			continue
+		}
+		isW := func(m *core.Node) bool {
+			return m.Kind != core.KAfter && m.IsCallTo("(*os.File).WriteString", "(*os.File).Write")
+		}
+		obP := r.Ob("R4", "FileSplitter:every-line-written(scan)", "each line the scanner delivers is written to a part; the scan loop ends when the scanner is exhausted")
+		resT := g.Run(core.Scenario{Start: n, Result: core.BoolAV(true)})
+		resF := g.Run(core.Scenario{Start: n, Result: core.BoolAV(false)})
+		switch {
+		case resT.ReachesAvoiding(func(m *core.Node) bool { return m.Kind == core.KRootRet || m == n }, isW) != nil:
+			obP.Fail(g.Where(n), "after Scan() returned true the next Scan or the end of Run can be reached without a write: lines are dropped")
+		case resF.ReachesAvoiding(isW, func(m *core.Node) bool { return m.IsCallTo("(*bufio.Scanner).Scan") && m != n || m.IsCallTo("bufio.NewScanner") }) != nil:
+			obP.Fail(g.Where(n), "after Scan() returned false (input exhausted) a write is still reachable before the next input is opened: the loop test is inverted")
+		default:
+			obP.OK(g.Where(n), "Scan()=true ⇒ write; Scan()=false ⇒ no further write for this input")
+		}
 	}
 	// a bufio.Reader instead of a Scanner: text that comes together with the end-of-input error (a last line without
 	// newline) is still written to a part; a line read without error is written before the next read
